@@ -44,38 +44,38 @@ type LoopContract struct {
 }
 
 type FuncContract struct {
-	Kind       string // func iface extern
-	Key        string // normalised function key, e.g. "(Limit).MergeClause"
-	PkgPath    string
-	ParamNames []string // iface / extern: names for recv + params
-	Tags       []string
-	Requires   []*Clause
-	Assumes    []*Clause // data-structure invariants assumed at entry (listed as assumptions, not checked at call sites)
-	Ensures    []*Clause
-	EnsPanic   []*Clause
-	Modifies   []*Clause
-	Lets       []*Clause
-	Loops      []*LoopContract
-	MayPanic   []string
-	Trusted    string
-	Pure       bool
-	Inline     bool
-	NoPanic    bool
-	When         *Clause           // case condition of a contract with alternatives (funcalt)
-	Alts         []*FuncContract   // alternative cases of the same function (each with its own When)
+	Kind         string // func iface extern
+	Key          string // normalised function key, e.g. "(Limit).MergeClause"
+	PkgPath      string
+	ParamNames   []string // iface / extern: names for recv + params
+	Tags         []string
+	Requires     []*Clause
+	Assumes      []*Clause // data-structure invariants assumed at entry (listed as assumptions, not checked at call sites)
+	Ensures      []*Clause
+	EnsPanic     []*Clause
+	Modifies     []*Clause
+	Lets         []*Clause
+	Loops        []*LoopContract
+	MayPanic     []string
+	Trusted      string
+	Pure         bool
+	Inline       bool
+	NoPanic      bool
+	When         *Clause         // case condition of a contract with alternatives (funcalt)
+	Alts         []*FuncContract // alternative cases of the same function (each with its own When)
 	CaseName     string
 	InlineCalls  []string          // callee keys evaluated in place when this function is verified
 	Shared       []string          // func: all keys sharing this contract
 	Abstract     string            // iface: implementations are not verified (assumed), with reason
 	SkipImpl     map[string]string // iface: implementations not verified (key -> reason), reported
-	CallbackLoop bool // extern: calls its closure argument any number of times
-	Functional bool // extern: result is a function of scalar args
-	Allocates  bool
-	File       string
-	Line       int
-	Used       bool
-	Asserts    []*Clause // extra: 'assert-at-exit'
-	Covers     []*Clause
+	CallbackLoop bool              // extern: calls its closure argument any number of times
+	Functional   bool              // extern: result is a function of scalar args
+	Allocates    bool
+	File         string
+	Line         int
+	Used         bool
+	Asserts      []*Clause // extra: 'assert-at-exit'
+	Covers       []*Clause
 }
 
 type SpecFunc struct {
@@ -87,33 +87,34 @@ type SpecFunc struct {
 }
 
 type Event struct {
-	Kind     string // call invoke builtin mapread mapwrite mapdelete recv go
-	Key      string // "(*DB).Commit", "TxCommitter.Commit", "close", "PreparedStmtDB.Stmts"
-	PkgPath  string
-	Requires []*Clause
-	Do       []*Clause
-	Blocking bool
-	Interference bool // other goroutines may run here: escaping memory is havocked
+	Kind         string // call invoke builtin mapread mapwrite mapdelete recv go
+	Key          string // "(*DB).Commit", "TxCommitter.Commit", "close", "PreparedStmtDB.Stmts"
+	PkgPath      string
+	Requires     []*Clause
+	Do           []*Clause
+	Blocking     bool
+	Interference bool     // other goroutines may run here: escaping memory is havocked
 	In           []string // function globs the event is restricted to (empty: everywhere)
-	File     string
-	Line     int
-	Used     bool
+	File         string
+	Line         int
+	Used         bool
 }
 
 type Site struct {
-	Name    string
-	PkgPath string
-	Match   []string // "invoke ConnPool.ExecContext", "call (*DB).Begin", "store DB.Error"
-	In      []string // function key globs (pkg-qualified short: "callbacks.Create$1"); empty = all
-	NotIn   []string
-	Asserts []*Clause
+	Name        string
+	PkgPath     string
+	Match       []string // "invoke ConnPool.ExecContext", "call (*DB).Begin", "store DB.Error"
+	In          []string // function key globs (pkg-qualified short: "callbacks.Create$1"); empty = all
+	NotIn       []string
+	Asserts     []*Clause
+	MayBeEmpty  bool
 	AssumeAfter []*Clause // assumed about the call's result (stated facts about what lies outside the code)
-	Lets    []*Clause
-	Entry   []*Clause // ghost initialisation assumed at entry of the functions swept
-	Tags    []string
-	File    string
-	Line    int
-	MinSites int
+	Lets        []*Clause
+	Entry       []*Clause // ghost initialisation assumed at entry of the functions swept
+	Tags        []string
+	File        string
+	Line        int
+	MinSites    int
 }
 
 type Immutable struct {
@@ -137,7 +138,7 @@ type ContractSet struct {
 	Constants  map[string][]string // pkg path -> package-level variables that are never reassigned
 	Globals    []*Clause           // invariants of such constants (assumed)
 	GlobalPkg  map[*Clause]string
-	Sources    []string // files used
+	Sources    []string       // files used
 	Scan       map[string]int // occurrences of assume/trusted
 	order      []*FuncContract
 }
@@ -736,6 +737,9 @@ func (cs *ContractSet) parseFile(file, pkgPath string) error {
 					curSite.Tags = append(curSite.Tags, strings.Fields(strings.ReplaceAll(rest, ",", " "))...)
 				case "min-sites":
 					fmt.Sscan(rest, &curSite.MinSites)
+					if strings.TrimSpace(rest) == "0" {
+						curSite.MayBeEmpty = true // a sweep ("every such instruction ..."): holds when there is none
+					}
 				case "assert", "let", "entry", "assume-after":
 					c, err := mk(word, rest, l)
 					if err != nil {
